@@ -484,7 +484,8 @@ def c17(chk, thorough):
         'each centroid is the sum of the rows carrying its label divided by their number -- scatter by label from zeroed storage, one count per '
         'row, guarded division by the own count, that matrix returned; (S1-3, S4, S6, S7) the rows are partitioned among the label / distance '
         'workers for every (rows, threads) pair, workers write only their own rows and carry no accumulator across rows, so labels do not depend '
-        'on the thread count. NOT decided: convergence up to the documented tolerance, every clause about the selection methods (MDC, both '
+        'on the thread count; (KM.converged) the loop stops only when every coordinate of every centroid equals the previous one within the '
+        'documented absolute EPSILON. NOT decided: that the iteration reaches that state (it is capped, C18), every clause about the selection methods (MDC, both '
         'max-min implementations, k-means++): distinct in-range indices, farthest-first optimality, equality of the two implementations.')
     chk.assumptions = ['real arithmetic', 'distinct parameters do not alias', 'thread counts >= 1']
     prog = load_program(chk, ['clustering.c', 'metricspace.c', 'matrix.c', 'vector.c', 'tensor.c', 'memwrapper.c', 'numeric.c'])
@@ -492,6 +493,7 @@ def c17(chk, thorough):
     slices.run(chk, prog, rmax=40 if thorough else 12, nmax=24 if thorough else 8, dom=4 if thorough else 3)
     chk.floor('KM.nearest', 4)
     chk.floor('KM.centroid-mean', 6)
+    chk.floor('KM.converged', 4)
     chk.floor('S1-3.partition', 3)
     chk.floor('S7.row-accumulators', 3)
 
